@@ -4,7 +4,7 @@
    added; the matrix always holds exactly the pairs of live nodes, so the run ends with exactly
    n-1 merges and one live node. *)
 From Coq Require Import Lia Arith PeanoNat List.
-From HpoV Require Import Model.Base Model.Group Model.Linkage Proofs.BaseP Proofs.DistP Proofs.QgoodP Proofs.C17P.
+From HpoV Require Import Model.Base Model.Group Model.Linkage Proofs.BaseP Proofs.DistP Proofs.QgoodP Proofs.C17P Proofs.C04P.
 Import ListNotations.
 Local Open Scope nat_scope.
 
@@ -731,5 +731,71 @@ Section L.
         destruct (Nat.eqb_spec a i); [congruence|]. destruct (Nat.eqb_spec a j); [congruence|].
         destruct (Nat.eqb_spec b i); [congruence|]. destruct (Nat.eqb_spec b j); [congruence|]. reflexivity.
       + rewrite <- El, nth_error_app2, Nat.sub_diag by lia. reflexivity.
+  Qed.
+
+  (* ---------------- the initial matrix ---------------- *)
+
+  Lemma fold_insert_get (kv : list ((nat * nat) * F)) : forall (m : dmat) k v, NoDup (map fst kv) -> In (k, v) kv ->
+    dm_get F k (fold_left (fun m (e : (nat * nat) * F) => dm_insert F (fst e) (snd e) m) kv m) = Some v.
+  Proof.
+    induction kv as [|[k' v'] kv IH]; intros m k v Nd Hin; [destruct Hin|]. cbn [fold_left fst snd].
+    inversion Nd as [|? ? Hn Nd']; subst. destruct Hin as [E|Hin].
+    - injection E as -> ->.
+      assert (forall m0, dm_get F k (fold_left (fun m (e : (nat * nat) * F) => dm_insert F (fst e) (snd e) m) kv m0) = dm_get F k m0) as Keep.
+      { clear -Hn. induction kv as [|[k2 v2] kv IH]; intros m0; cbn [fold_left fst snd]; [reflexivity|].
+        cbn [map fst In] in Hn. rewrite IH by tauto. rewrite dm_get_insert. destruct (keq k k2) eqn:E; [|reflexivity].
+        apply keq_true in E. subst k2. tauto. }
+      rewrite Keep, dm_get_insert, keq_refl. reflexivity.
+    - apply IH; assumption.
+  Qed.
+
+  Lemma combine_app_eq {A B} (a1 a2 : list A) (b1 b2 : list B) : length a1 = length b1 ->
+    combine (a1 ++ a2) (b1 ++ b2) = combine a1 b1 ++ combine a2 b2.
+  Proof. revert b1. induction a1 as [|x a1 IH]; intros [|y b1] H; cbn in *; try discriminate; [reflexivity|]. rewrite IH by lia. reflexivity. Qed.
+
+  Lemma row_combine {A} (f : A * A -> F) (zi : nat) (z : A) (l : list A) : forall s b y,
+    s <= b -> nth_error l (b - s) = Some y ->
+    In ((zi, b), f (z, y)) (combine (map (fun y => (zi, y)) (seq s (length l))) (map f (map (fun y => (z, y)) l))).
+  Proof.
+    induction l as [|w l IH]; intros s b y Hs Hy; [destruct (b - s); discriminate|].
+    cbn [length seq map combine]. destruct (Nat.eq_dec b s) as [->|Hne].
+    - rewrite Nat.sub_diag in Hy. injection Hy as ->. left. reflexivity.
+    - right. apply IH; [lia|]. replace (b - s) with (S (b - S s)) in Hy by lia. exact Hy.
+  Qed.
+
+  Lemma pairs_combine {A} (f : A * A -> F) (l : list A) : forall start a b x y,
+    a < b -> nth_error l (a - start) = Some x -> nth_error l (b - start) = Some y -> start <= a ->
+    In ((a, b), f (x, y)) (combine (all_pairs_of (seq start (length l))) (map f (all_pairs_of l))).
+  Proof.
+    induction l as [|z l IH]; intros start a b x y Hab Ha Hb Hs; [destruct (a - start); discriminate|].
+    cbn [length seq all_pairs_of]. rewrite map_app, combine_app_eq by (rewrite !map_length, seq_length; reflexivity).
+    apply in_or_app. destruct (Nat.eq_dec a start) as [->|Hne].
+    - left. rewrite Nat.sub_diag in Ha. injection Ha as ->.
+      apply row_combine; [lia|]. replace (b - start) with (S (b - S start)) in Hb by lia. exact Hb.
+    - right. apply IH; try lia.
+      + replace (a - start) with (S (a - S start)) in Ha by lia. exact Ha.
+      + replace (b - start) with (S (b - S start)) in Hb by lia. exact Hb.
+  Qed.
+
+  Lemma all_pairs_NoDup n : forall start, NoDup (all_pairs_of (seq start n)).
+  Proof.
+    induction n as [|n IH]; intros start; cbn [seq all_pairs_of]; [constructor|].
+    apply C04P.NoDup_app_disj.
+    - apply FinFun.Injective_map_NoDup; [intros x y E; congruence|apply seq_NoDup].
+    - apply IH.
+    - intros [a b] H1 H2. apply in_map_iff in H1 as [y [E _]]. injection E as <- <-.
+      apply all_pairs_seq_In in H2. lia.
+  Qed.
+
+  (* the matrix a run starts from: the user's distance of every pair of input sets *)
+  Theorem l_new_distances sets s0 : l_new F dist sets = Ok s0 ->
+    forall a b ga gb, a < b -> nth_error sets a = Some ga -> nth_error sets b = Some gb ->
+    dm_get F (a, b) (l_dm F s0) = Some (dist ga gb).
+  Proof.
+    unfold l_new. intros H a b ga gb Hab Ha Hb. apply bind_Ok' in H as [pairs [Hp H]]. apply bind_Ok' in H as [idx [Hi H]]. injection H as <-.
+    apply comb_new_all_live in Hp. apply comb_new_all_live in Hi. cbn [l_dm]. subst pairs idx.
+    apply fold_insert_get.
+    - rewrite map_fst_combine; [apply all_pairs_NoDup|]. rewrite map_length. apply all_pairs_len. rewrite seq_length. reflexivity.
+    - apply (pairs_combine (fun p : group * group => dist (fst p) (snd p)) sets 0 a b ga gb Hab); [rewrite Nat.sub_0_r; exact Ha|rewrite Nat.sub_0_r; exact Hb|lia].
   Qed.
 End L.
